@@ -62,7 +62,7 @@ def _pyval(x):
     return None if x == NONE else False if x == FALSE else x
 
 
-def make_policy(p):
+def make_policy(p, other_counters=False):
     from urllib3.util.retry import Retry
     if p["kind"] == "none":
         return None
@@ -73,6 +73,8 @@ def make_policy(p):
     kw = dict(total=_pyval(p["total"]), redirect=_pyval(p["redirect"]), raise_on_redirect=p["raise"])
     if p["rmsp"] != "default":
         kw["remove_headers_on_redirect"] = [spell(k, p["rmsp"]) for k in sorted(p["remove"])]
+    if other_counters:      # growth module RedirectMeta: counters a redirect chain must leave alone
+        kw.update(connect=5, read=6, status=7, other=8)
     return Retry(**kw)
 
 
@@ -139,8 +141,10 @@ def _https_standin(net):
     return StandInHTTPSPool
 
 
-def run_scenario(sc, skip=()):
-    """Execute one scenario on the real code.  Returns the trace (JSON-able dict)."""
+def run_scenario(sc, skip=(), observer=None):
+    """Execute one scenario on the real code.  Returns the trace (JSON-able dict).
+    observer(result, exception, request_policy, client_policy, snapshots_before) -> dict is the hook of the growth
+    module RedirectMeta: what it returns (the metadata the caller received) is stored under "meta"."""
     import urllib3
     from urllib3.connectionpool import HTTPConnectionPool
     from urllib3.exceptions import HostChangedError, MaxRetryError
@@ -160,13 +164,13 @@ def run_scenario(sc, skip=()):
     ckw = {}
     if chdrs is not None:
         ckw["headers"] = chdrs
-    cpol = make_policy(cfg["clipol"])
+    cpol = make_policy(cfg["clipol"], observer is not None)
     if cpol is not None:
         ckw["retries"] = cpol
     rkw = {}
     if rhdrs is not None:
         rkw["headers"] = rhdrs
-    rpol = make_policy(cfg["reqpol"])
+    rpol = make_policy(cfg["reqpol"], observer is not None)
     if rpol is not None or cfg["reqnone"]:     # reqnone: the kwarg is passed explicitly as retries=None
         rkw["retries"] = rpol
     if not cfg["flag"]:
@@ -177,6 +181,8 @@ def run_scenario(sc, skip=()):
         rkw["body"] = io.BytesIO(PAYLOAD)
     start = cfg["start"]
     exc = None
+    result = error = None
+    before = observer(None, None, rpol, cpol, None) if observer else None
     with SchemeNet(responder) as net:
         try:
             if cfg["client"] == "pool":
@@ -192,10 +198,13 @@ def run_scenario(sc, skip=()):
                 cl.pool_classes_by_scheme = {"http": HTTPConnectionPool, "https": _https_standin(net)}
                 r = cl.urlopen(cfg["method"], render_url(start), **rkw)
             outcome = {"kind": "resp", "status": r.status}
-        except MaxRetryError:
+            result = r
+        except MaxRetryError as ex:
             outcome = {"kind": "MaxRetryError", "status": 0}
-        except HostChangedError:
+            error = ex
+        except HostChangedError as ex:
             outcome = {"kind": "HostChangedError", "status": 0}
+            error = ex
         except N.HarnessStall as ex:
             raise tlc.MachineryError(f"harness stall in scenario {json.dumps(sc)[:400]}: {ex}")
         except tlc.MachineryError:
@@ -226,6 +235,9 @@ def run_scenario(sc, skip=()):
           "skip": list(skip),
           "hasexp": "wire" in sc and "outcome" in sc,
           "exp": {"wire": sc.get("wire", []), "outcome": sc.get("outcome", {"kind": "none", "status": 0})}}
+    if observer:
+        tr["meta"] = observer(result, error, rpol, cpol, before)
+        tr["expmeta"] = sc.get("meta")
     if exc:
         tr["exc"] = exc
     return tr
